@@ -263,6 +263,9 @@ def export_ply(
     if vertex_normal is None:
         vertex_normal = "vertex_normals" in mesh._cache
 
+    # the vertex attributes to write: a copy of the mapping
+    # so the mesh being exported isn't altered
+    vertex_attributes = dict(getattr(mesh, "vertex_attributes", {}))
     # if we want to include mesh attributes in the export
     if include_attributes:
         if hasattr(mesh, "vertex_attributes"):
@@ -272,9 +275,9 @@ def export_ply(
                 and hasattr(mesh.visual, "uv")
                 and np.shape(mesh.visual.uv) == (len(mesh.vertices), 2)
             ):
-                mesh.vertex_attributes["s"] = mesh.visual.uv[:, 0]
-                mesh.vertex_attributes["t"] = mesh.visual.uv[:, 1]
-            _assert_attributes_valid(mesh.vertex_attributes)
+                vertex_attributes["s"] = mesh.visual.uv[:, 0]
+                vertex_attributes["t"] = mesh.visual.uv[:, 1]
+            _assert_attributes_valid(vertex_attributes)
         if hasattr(mesh, "face_attributes"):
             _assert_attributes_valid(mesh.face_attributes)
 
@@ -368,8 +371,8 @@ def export_ply(
             dtype_vertex.append(dtype_color)
 
         if include_attributes and hasattr(mesh, "vertex_attributes"):
-            _add_attributes_to_header(header, mesh.vertex_attributes)
-            _add_attributes_to_dtype(dtype_vertex, mesh.vertex_attributes)
+            _add_attributes_to_header(header, vertex_attributes)
+            _add_attributes_to_dtype(dtype_vertex, vertex_attributes)
 
         # create and populate the custom dtype for vertices
         pack_vertex = np.zeros(num_vertices, dtype=dtype_vertex)
@@ -380,7 +383,7 @@ def export_ply(
             pack_vertex["rgba"] = mesh.visual.vertex_colors
 
         if include_attributes and hasattr(mesh, "vertex_attributes"):
-            _add_attributes_to_data_array(pack_vertex, mesh.vertex_attributes)
+            _add_attributes_to_data_array(pack_vertex, vertex_attributes)
 
     if hasattr(mesh, "faces"):
         header.append(templates["face"])
